@@ -23,6 +23,19 @@ TERMINAL = {"Completed", "Submitted", "Backed", "Cancelled", "Error", "Aborted",
 T = "scheduler::process::task::Task"
 
 
+class _WorldProxy:
+    """Environment models are installed once per interpreter and always talk to the current world."""
+
+    def __init__(self, I):
+        object.__setattr__(self, "_I", I)
+
+    def __getattr__(self, name):
+        return getattr(object.__getattribute__(self, "_I").world, name)
+
+    def __setattr__(self, name, value):
+        setattr(object.__getattribute__(self, "_I").world, name, value)
+
+
 class World:
     def __init__(self, I, cache_cap=None, keep_processes=None, max_retry=None, tick_secs=None, policy="explore"):
         self.I = I
@@ -81,7 +94,10 @@ class World:
     # ------------------------------------------------------------------ environment models
     def install(self):
         I = self.I
-        W = self
+        if getattr(I, "_world_installed", False):
+            return
+        I._world_installed = True
+        W = _WorldProxy(I)
         ov = I.overrides
 
         # ---- tracing: disabled
@@ -140,6 +156,7 @@ class World:
         def ctx_with(I, a, cc):
             return I.call_value(a[0], [Ptr([W.ctx_stack[-1]], 0)], cc.frame)
 
+        self = W
         self._override_method("Context", "scope", ctx_scope)
         self._override_method("Context", "current", ctx_current)
         self._override_method("Context", "with", ctx_with)
@@ -161,7 +178,7 @@ class World:
             name = deref_all(a[1])
             t = W.packages().get(name)
             if t is None:
-                return err(self.act_error("Store", "cannot find packages by '%s'" % name))
+                return err(W.act_error("Store", "cannot find packages by '%s'" % name))
             return ok(t["info"])
 
         self._override_method("PackageExecutor", "get", pack_get)
@@ -329,10 +346,11 @@ class World:
         # boot-time spawns (the tick interval loop) are not jobs of the model: ticks are explicit
         self.jobs = [j for j in self.jobs if j[0] not in ("tick_loop",)]
         # default channel: record everything
-        self.on("on_message", "default", lambda e: self.messages.append(self.msg_dict(e)))
-        self.on("on_start", "default", lambda e: self.events.append(("start", self.msg_dict(e))))
-        self.on("on_complete", "default", lambda e: self.events.append(("complete", self.msg_dict(e))))
-        self.on("on_error", "default", lambda e: self.events.append(("error", self.msg_dict(e))))
+        W = _WorldProxy(self.I)
+        self.on("on_message", "default", lambda e: W.messages.append(W.msg_dict(e)))
+        self.on("on_start", "default", lambda e: W.events.append(("start", W.msg_dict(e))))
+        self.on("on_complete", "default", lambda e: W.events.append(("complete", W.msg_dict(e))))
+        self.on("on_error", "default", lambda e: W.events.append(("error", W.msg_dict(e))))
         return self
 
     def on(self, which, key, pyfn):
@@ -569,7 +587,7 @@ class World:
     # ------------------------------------------------------------------ monitors
     def install_monitors(self):
         I = self.I
-        W = self
+        W = _WorldProxy(I)
 
         def find(method):
             for (k_ty, k_tr, k_m), its in I.p.impls.items():
